@@ -158,8 +158,14 @@ def brackets_case(rng):
         elif rng.random() < 0.5:
             t.data['label'] = "VROOT"
         if disco:
-            sent = " ".join(x.data['word'] for x in trees.terminals(t))
-            text += enc_br(rng, t, True, emptyroot, disco=True).replace("\n", " ").replace("\t", " ") + "\t" + sent + "\n"
+            # every whitespace layout of the sentence part: blanks / TABs in any number between the words, after the TAB
+            # and before the line break, blank lines between sentences
+            ws1 = (lambda: " ") if rng.random() < 0.5 else (lambda: rng.choice([" ", " ", "  ", "\t", " \t "]))
+            words = [x.data['word'] for x in trees.terminals(t)]
+            sent = words[0] + "".join(ws1() + w for w in words[1:])
+            lead = rng.choice(["", "", "", " ", "  "])
+            trail = rng.choice(["\n", "\n", "\n", " \n", "\n\n", "\t\n", " \n \n"])
+            text += enc_br(rng, t, True, emptyroot, disco=True).replace("\n", " ").replace("\t", " ") + "\t" + lead + sent + trail
         else:
             if rng.random() < 0.2:
                 text += rng.choice(["junk ", ") ", "%% comment\n"])
